@@ -12,7 +12,15 @@ def srcStr : PlaneSrc → String
   | .old k => "O" ++ toString k
   | .fill => "1"
 
+def parseOp (n : String) : Option Op := Op.all.find? (fun o => o.name == n)
+
 def cmds : List (String × Cmd) := [
+  -- merged.dirty <op,op,...>  →  1 when the history sets `_updated_layers`
+  ("merged.dirty", fun
+    | [ops] => match (if ops == "-" then some [] else (ops.splitOn ",").mapM parseOp) with
+      | some l => okLine (if dirtyAfter false l then "1" else "0")
+      | none => badRequest
+    | _ => badRequest),
   -- merged.routes <colour mode> <channels> <depth> <mergedTransparency 0/1> <alpha ids> <layer count> <old readable 0/1>
   --   → "none" | sources of the planes ; planes expected ; bytes per plane
   ("merged.routes", fun
